@@ -229,7 +229,9 @@ class Indexer(object):
             The value to set.
         """
         if self._flat_src:
-            arr.ravel()[self.flat()] = val
+            # ravel() returns a copy for non-contiguous arrays (e.g. the real part of a complex
+            # vector), so assign through the flat iterator
+            arr.flat[self.flat()] = val
         else:
             arr[self()] = val
 
